@@ -79,7 +79,108 @@ let cmd_build () =
        | _ -> failwith ("build: bad line " ^ l))
   in loop ()
 
+(* ---------------- query engine ---------------- *)
+let kv_of_line (l : string) : (string * string) list =
+  List.filter_map (fun w -> match String.index_opt w '=' with
+      | Some i -> Some (String.sub w 0 i, String.sub w (i + 1) (String.length w - i - 1))
+      | None -> None) (words l)
+
+(* hex tokens inside a composite value like "(x61,x62,~)" *)
+let hex_tokens (s : string) : string option list =
+  let out = ref [] and i = ref 0 and n = String.length s in
+  while !i < n do
+    (match s.[!i] with
+     | '~' -> out := None :: !out; incr i
+     | 'x' ->
+       let j = ref (!i + 1) in
+       while !j < n && (match s.[!j] with '0'..'9' | 'a'..'f' -> true | _ -> false) do incr j done;
+       out := Some (unhex (String.sub s !i (!j - !i))) :: !out; i := !j
+     | _ -> incr i)
+  done; List.rev !out
+
+let hexlist_of (s : string) : byte list list =
+  List.filter_map (function Some x -> Some (bytes_of_string x) | None -> None) (hex_tokens s)
+
+let dummy_doc = { d_tags = []; d_author = []; d_version = []; d_nlines = O; d_commented = [] }
+
+(* a NODE line of the implementation's canonical dump -> node (the fields the engine reads) *)
+let node_of_line (l : string) : node =
+  let kv = kv_of_line l in
+  let g k = try List.assoc k kv with Not_found -> failwith ("node: missing " ^ k) in
+  let hb k = bytes_of_hex (g k) in
+  { n_idpre = bytes_of_string (g "id"); n_type = hb "type"; n_name = hb "name"; n_snippet = hb "snippet";
+    n_line = n_of_int (int_of_string (g "line")); n_ext = (g "ext" = "1"); n_mod = hb "mod"; n_ret = hb "ret";
+    n_argt = hexlist_of (g "argt"); n_argv = hexlist_of (g "argv"); n_super = hb "super"; n_iface = hexlist_of (g "iface");
+    n_dtype = hb "dtype"; n_scope = hb "scope"; n_value = hb "value"; n_access = (g "access" = "1"); n_file = hb "file";
+    n_isjava = (g "isjava" = "1"); n_throws = hexlist_of (g "throws"); n_annot = hexlist_of (g "annot");
+    n_doc = (if g "doc" = "~" then None else Some dummy_doc);
+    n_bin = (if g "bin" = "~" then None else
+               match hex_tokens (g "bin") with
+               | [Some o; Some a; Some b] -> Some ((bytes_of_string o, bytes_of_string a), bytes_of_string b)
+               | _ -> Some (([], []), []));
+    n_new = (if g "new" = "~" then None else
+               match hex_tokens (g "new") with
+               | Some c :: _ -> Some (bytes_of_string c, [])
+               | _ -> Some ([], []));
+    n_stmt = (if g "stmt" = "~" then None else Some (SBreak [])) }
+
+let rec pr_val (v : val0) : string =
+  match v with
+  | VS s -> "S" ^ hexb s
+  | VI z -> "I" ^ (let rec zs = function Z0 -> 0 | Zpos p -> int_of_pos p | Zneg p -> - (int_of_pos p) in string_of_int (zs z))
+  | VB b -> "B" ^ b01 b
+  | VNil -> "N"
+  | VL l -> "L[" ^ String.concat "," (List.map pr_val l) ^ "]"
+  | _ -> "?"
+
+let pr_entity (n : node) : string = Printf.sprintf "%s:%d:%s" (hexb n.n_file) (int_of_n n.n_line) (hexb n.n_snippet)
+
+(* query <graph-file> : queries on stdin as "<id> <hex query>" *)
+let cmd_query (graph_file : string) =
+  let ic = open_in graph_file in
+  let nodes = ref [] in
+  (try while true do
+       let l = input_line ic in
+       if String.length l > 5 && String.sub l 0 5 = "NODE " then nodes := node_of_line l :: !nodes
+     done with End_of_file -> ());
+  close_in ic;
+  let g = List.rev !nodes in
+  let rec loop () =
+    match read_line_opt () with
+    | None -> ()
+    | Some l when l = "" -> loop ()
+    | Some l ->
+      (match words l with
+       | [id; qh] ->
+         let s = bytes_of_hex qh in
+         Printf.printf "QUERY %s\n" id;
+         (match parse_query s with
+          | None -> print_string "PARSE reject\n"
+          | Some aq ->
+            let q = flatten_query aq in
+            print_string "PARSE accept\n";
+            Printf.printf "FROM %s\n" (String.concat "," (List.map (fun (k, a) -> hexb k ^ ":" ^ hexb a) q.q_from));
+            Printf.printf "SELECT %s\n" (String.concat "," (List.map (function
+                | SelVar x -> "variable:" ^ hexb x
+                | SelChain (_, _) -> "method_chain"
+                | SelStr t -> "string:" ^ hexb t) q.q_select));
+            Printf.printf "PREDS %s\n" (String.concat "," (List.map (fun d ->
+                hexb d.pd_name ^ "(" ^ String.concat ";" (List.map (fun (t, n) -> hexb t ^ ":" ^ hexb n) d.pd_params) ^ ")") q.q_preds));
+            Printf.printf "COND %s\n" (hexb (expanded_condition q));
+            Printf.printf "INFRAG %s\n" (b01 (in_fragment q g));
+            let rs = results q g in
+            let sp = spec_results q g in
+            Printf.printf "SPECSAME %s\n" (b01 (List.length rs = List.length sp && List.for_all2 (fun a b -> List.for_all2 (fun (x : node) (y : node) -> x.n_idpre = y.n_idpre) a b) rs sp));
+            List.iter (fun t ->
+                Printf.printf "TUPLE %s\n" (String.concat "|" (List.map pr_entity t));
+                Printf.printf "ROW %s\n" (String.concat "|" (List.map (function Some v -> pr_val v | None -> "?") (row q t)))) rs);
+         print_string "ENDQUERY\n";
+         loop ()
+       | _ -> failwith ("query: bad line " ^ l))
+  in loop ()
+
 let () =
   match Array.to_list Sys.argv with
   | [_; "build"] -> cmd_build ()
-  | _ -> prerr_endline "usage: model build < cases"; exit 2
+  | [_; "query"; g] -> cmd_query g
+  | _ -> prerr_endline "usage: model build < cases | model query <graph> < queries"; exit 2
